@@ -179,3 +179,8 @@ def run(ctx):
     ctx.ob(any(m.method == 'clear' and show(m.path) == 'self.current_aliases' for m in prims.mutations(rs)), 'inbound reset forgets all bindings', 'inbound|reset', loc=rs.loc())
     vp = ctx.fn('publish::validate_publish_packet_inbound_internal')
     ctx.ob(any(guarded_any(vp, b, [r'^String::is_empty\(packet\.topic\)$']) for b in prims.err_blocks(vp)), 'an inbound PUBLISH whose topic is still empty after resolution is rejected', 'inbound|empty-topic', loc=vp.loc())
+    # ---- added after the mutation sweep: the configured values this property starts from reach the options (builder setters)
+    from . import shared as _sh
+    _ns = _sh.builder_setters(ctx, lambda b, m: b == 'MqttClientOptionsBuilder' and m == 'with_outbound_alias_resolver_factory', 'R-C17-1', 'the configured resolver is the one in force')
+    if ctx.config == 'all':
+        ctx.floor(_ns, 1, 'builder setters this property depends on')
